@@ -93,7 +93,7 @@ def storeSet (s : Store σ) (name : Str) (v : σ) : Store σ :=
 inductive Out (α σ : Type) where
   | ret (r : Res α) (store : Option (Store σ))
   | indexError
-  deriving Repr
+  deriving Repr, DecidableEq
 
 /-- the common tail of every getter: `if not required: return default` / `raise errors.HTTPMissingParam(name)` -/
 def absent (required : Bool) (store : Option (Store σ)) : Out α σ :=
